@@ -340,14 +340,14 @@ func C04(r *h.Run) {
 						canned := &h.CannedClient{Build: func(*http.Request) (*http.Response, error) {
 							return h.NewResponse(200, hdr.Clone(), h.NewChunkBody([][]byte{wire[:cut]}, fin), nil), nil
 						}}
-						client := connect.NewClient[h.Raw, h.Raw](canned, "http://verif.local/verif.Svc/Unary", clientOpts(envCfg{Proto: "connect"}, "")...)
+						client := connect.NewClient[h.Raw, h.Raw](canned, "http://verif.local/verif.Svc/Unary", clientOpts(envCfg{Proto: "connect", Max: []int{0, 64}[i%2]}, "")...)
 						var resp *connect.Response[h.Raw]
 						resp, err = client.CallUnary(context.Background(), connect.NewRequest(&h.Raw{B: []byte("q")}))
 						if err == nil {
 							got = resp.Msg.B
 						}
 					})
-					in := map[string]any{"proto": "connect", "kind": "unary (CallUnary)", "algo": algo, "body_hex": h.Hex(wire), "cut": cut, "fin": fin.Coq()}
+					in := map[string]any{"proto": "connect", "kind": "unary (CallUnary)", "algo": algo, "body_hex": h.Hex(wire), "cut": cut, "fin": fin.Coq(), "client_read_max_bytes": []int{0, 64}[i%2]}
 					r.Eval("client_cut_connect_unary", fmt.Sprintf("%x|%s|%d|%d", wire, algo, cut, fin))
 					if timedOut || p != nil {
 						r.Fail(h.Failure{Key: "cut/hang-or-panic", Family: "client_cut_connect_unary", What: fmt.Sprint("hang or panic: ", p, " timeout=", timedOut), Input: in})
@@ -362,6 +362,27 @@ func C04(r *h.Run) {
 					}
 					if err != nil && connect.CodeOf(err) == 0 {
 						r.Fail(h.Failure{Key: "cut/zero-code", Family: "client_cut_connect_unary", What: "failure reported with the zero code", Input: in})
+					}
+				}
+			}
+		}
+	}
+
+	// ---- the same on the handler side: a unary Connect REQUEST body that fails at any offset
+	// (with and without a read limit above the message size) never reaches user code as a message ----
+	for i := 0; i < r.N(10, 60); i++ {
+		payload := genPayload(rng, 1+rng.Intn(24))
+		for _, algo := range []string{"", "tagA"} {
+			for _, max := range []int{0, 64} {
+				wire := compressToy(algo, payload)
+				cfg := envCfg{Proto: "connect", Algo: algo, Max: max}
+				for cut := 0; cut <= len(wire); cut++ {
+					for _, fin := range []h.FinKind{h.FinUnexpectedEOF, h.FinOther} {
+						o := envRunUnary(r, "handler_cut_connect_unary", cfg, [][]byte{wire[:cut]}, fin, cut%3 == 0, "unary request cut")
+						if o.Kind == "msg" {
+							r.Fail(h.Failure{Key: "cut/handler-clean-eof", Family: "handler_cut_connect_unary", What: "user code received a message from a unary request body that failed before its end",
+								Input: map[string]any{"cfg": cfg, "body_hex": h.Hex(wire), "cut": cut, "fin": fin.Coq()}, Actual: o.String()})
+						}
 					}
 				}
 			}
